@@ -278,3 +278,71 @@ func TestConcurrentDecode(t *testing.T) {
 	}
 	wg.Wait()
 }
+
+// TestConcurrentMarshal: several goroutines marshal their own structs into their own messages at
+// the same moment (Marshal keeps no state of its own, the statement of C18 holds per call). Each
+// result is compared with the values that went in, directly and after a wire round trip.
+func TestConcurrentMarshal(t *testing.T) {
+	type vsa struct {
+		VendorID uint32 `avp:"Vendor-Id"`
+		AuthApp  uint32 `avp:"Auth-Application-Id"`
+	}
+	type src struct {
+		OriginHost  datatype.DiameterIdentity `avp:"Origin-Host"`
+		OriginRealm string                    `avp:"Origin-Realm"`
+		ResultCode  uint32                    `avp:"Result-Code"`
+		StateID     uint32                    `avp:"Origin-State-Id"`
+		Firmware    uint32                    `avp:"Firmware-Revision"`
+		VSA         []vsa                     `avp:"Vendor-Specific-Application-Id"`
+	}
+	var wg sync.WaitGroup
+	var mu sync.Mutex
+	bad := ""
+	for g := 0; g < 8; g++ {
+		wg.Add(1)
+		go func(g int) {
+			defer wg.Done()
+			for i := 0; i < 3000; i++ {
+				base := uint32(g*1000000 + i*10)
+				in := src{OriginHost: datatype.DiameterIdentity("h" + string(rune('a'+g))), OriginRealm: "r" + string(rune('a'+g)), ResultCode: base + 1, StateID: base + 2, Firmware: base + 3,
+					VSA: []vsa{{base + 4, base + 5}, {base + 6, base + 7}}}
+				m := diam.NewMessage(257, 0x80, 0, uint32(g), uint32(i), dict.Default)
+				if err := m.Marshal(&in); err != nil {
+					t.Error(err)
+					return
+				}
+				b, err := m.Serialize()
+				if err != nil {
+					t.Error(err)
+					return
+				}
+				for _, mm := range []*diam.Message{m, nil} {
+					if mm == nil {
+						if mm, err = diam.ReadMessage(bytes.NewReader(b), dict.Default); err != nil {
+							t.Error(err)
+							return
+						}
+					}
+					var out src
+					if err := mm.Unmarshal(&out); err != nil {
+						t.Error(err)
+						return
+					}
+					if out.OriginHost != in.OriginHost || out.OriginRealm != in.OriginRealm || out.ResultCode != in.ResultCode || out.StateID != in.StateID ||
+						out.Firmware != in.Firmware || len(out.VSA) != 2 || out.VSA[0] != in.VSA[0] || out.VSA[1] != in.VSA[1] {
+						mu.Lock()
+						if bad == "" {
+							bad = "marshalled concurrently: a struct came back with values of another goroutine's struct"
+						}
+						mu.Unlock()
+						return
+					}
+				}
+			}
+		}(g)
+	}
+	wg.Wait()
+	if bad != "" {
+		t.Error(bad)
+	}
+}
